@@ -61,7 +61,7 @@ def main():
     class FakeThread:
         """the keyboard thread is never started; it counts as alive until a quit was requested"""
 
-        def __init__(self, target=None, args=(), kwargs=None):
+        def __init__(self, group=None, target=None, name=None, args=(), kwargs=None, *, daemon=None):
             self.daemon = True
             self._pcfg = args[1] if len(args) > 1 else None
 
